@@ -213,4 +213,31 @@ def replay(path, seed):
         bad = [f for f in fails if f[0] in TAGS] or \
               [f for f in fails if f[0] == "liveness" and not (fq.non_uniform_groups(case) and fq.f7_shape(case, row["impl"]))]
         return 1 if (bad or row["problem"] or row["diff"]) else 0
+    if isinstance(inp, dict) and "binaries" in inp:
+        sc = {k: v for k, v in inp.items() if k != "tag"}
+        res = vlib.run_impl(binary, "fq", [sc], timeout=600)[0]
+        fails = fq.runner_oracle(inp, res)
+        print("impl:", json.dumps(res)[:3000])
+        print("oracle:", fails or "accepts")
+        bad = [f for f in fails if f[0] in TAGS]
+        if "liveness" in [f[0] for f in fails] and not fq.runner_f7_shape(inp, res):
+            bad.append(("liveness", "stranded outside the known class"))
+        return 1 if bad else 0
+    name = d.get("name", "")
+    if name == "corr:binary-id-ord" and isinstance(inp, list):
+        got = vlib.run_impl(binary, "fq", [dict(op="binid_cmp", ids=inp)])[0][0][1]
+        want = py_cmp(py_components(inp[0]), py_components(inp[1]))
+        print("impl:", got, "documented:", want)
+        return 1 if got != want else 0
+    if name == "corr:priority-ord" and isinstance(inp, list):
+        got = vlib.run_impl(binary, "fq", [dict(op="prio_cmp", prios=inp)])[0]["cmp"][0][1]
+        want = py_cmp(-inp[0], -inp[1])
+        print("impl:", got, "documented:", want)
+        return 1 if got != want else 0
+    if name == "corr:priority-queue" and isinstance(inp, dict) and "tests" in inp:
+        got = vlib.run_impl(binary, "fq", [inp])[0]
+        want = sorted(range(len(inp["tests"])),
+                      key=lambda k: (-inp["tests"][k][2], py_components(inp["tests"][k][0]), inp["tests"][k][1]))
+        print("impl:", got, "documented:", want)
+        return 1 if got != want else 0
     return 0
